@@ -572,6 +572,13 @@ class Name:
         of reducing the message size).
         """
         name = self.name
+        # RFC 1035 2.3.4: labels are at most 63 octets and a whole name at most
+        # 255 octets on the wire (each label is preceded by a length octet and
+        # the name ends with the zero-length root label).  A longer label
+        # would be written with a length octet that means something else (a
+        # compression pointer or a reserved label type).
+        if len(name) + (1 if name.endswith(b".") else 2) > 255:
+            raise ValueError(f"Name too long: {len(name)} bytes")
         while name:
             if compDict is not None:
                 if name in compDict:
@@ -587,6 +594,8 @@ class Name:
                 label = name
                 name = None
                 ind = len(label)
+            if ind > 63:
+                raise ValueError(f"Label too long: {ind} bytes")
             strio.write(_ord2bytes(ind))
             strio.write(label)
         strio.write(b"\x00")
